@@ -422,6 +422,7 @@ def replay_asyncio(trace, S, n):
 
 
 def observed_violation(query, obs):
+    query = query.replace("-outside-known-window", "")
     if query == "Q1-overlap":
         return obs["overlap"]
     if query == "Q2-exactly-once-in-order":
